@@ -9,6 +9,15 @@ use vstd::prelude::*;
 verus! {
 pub struct VErr;
 #[verifier::external_body] pub struct VString { s: String }
+// String methods a change may route a name through: results are uninterpreted (NOT known to be the identity)
+pub uninterp spec fn replaced(t: Seq<char>, from: char, to: Seq<char>) -> Seq<char>;
+pub uninterp spec fn lowered(t: Seq<char>) -> Seq<char>;
+pub uninterp spec fn trimmed(t: Seq<char>) -> Seq<char>;
+impl VString {
+    #[verifier::external_body] pub fn replace(&self, from: char, to: &str) -> (r: VString) ensures text_of(&r) == replaced(text_of(self), from, to@) { unimplemented!() }
+    #[verifier::external_body] pub fn to_lowercase(&self) -> (r: VString) ensures text_of(&r) == lowered(text_of(self)) { unimplemented!() }
+    #[verifier::external_body] pub fn trim(&self) -> (r: VString) ensures text_of(&r) == trimmed(text_of(self)) { unimplemented!() }
+}
 pub uninterp spec fn text_of(s: &VString) -> Seq<char>;
 #[verifier::external_body] pub fn clone_vs(s: &VString) -> (r: VString) ensures r == *s { unimplemented!() }
 
